@@ -31,11 +31,18 @@ pub enum Case15 {
         pscale: f64,
     },
     /// the cost closures on arbitrary equal-shaped arrays
-    Cost { kind: CostKind, dims: Vec<usize>, seed: u64 },
+    Cost {
+        kind: CostKind,
+        dims: Vec<usize>,
+        seed: u64,
+        /// outputs of very different magnitudes, down to probabilities far below 1e-12 (0: ordinary outputs)
+        #[serde(default)]
+        wide: u8,
+    },
 }
 
 fn cmp_t(what: &str, got: &corgi::array::Array, want: &T, exact: bool) -> Result<(), (String, String)> {
-    match diff_array(got, &want.dims, &want.values(), &want.mags(), exact) {
+    match diff_array_forward(got, &want.dims, &want.values(), &want.mags(), exact) {
         None => Ok(()),
         Some(d) if d == UNDECIDABLE => Err(("discard".into(), d)),
         Some(d) => Err((if got.dimensions() != &want.dims[..] { format!("wrong-dimensions:{}", what) } else { format!("value-mismatch:{}", what) }, format!("{}: {}", what, d))),
@@ -45,9 +52,15 @@ fn cmp_t(what: &str, got: &corgi::array::Array, want: &T, exact: bool) -> Result
 impl Case15 {
     fn check(&self) -> Result<bool, (String, String)> {
         match self {
-            Case15::Cost { kind, dims, seed } => {
+            Case15::Cost { kind, dims, seed, wide } => {
                 let n = numel(dims);
-                let o = gen_vals(*seed, n, VKind::Pos);
+                let o = match *wide {
+                    0 => gen_vals(*seed, n, VKind::Pos),
+                    1 => gen_vals(*seed, n, VKind::PosReal),
+                    // probabilities: (0, 1], spread over many orders of magnitude
+                    2 => wide_vals(*seed, n, if IS_F32 { -30 } else { -300 }, if IS_F32 { 30 } else { 300 }, false).into_iter().map(|v: f64| v.min(1.0)).collect(),
+                    _ => wide_vals(*seed, n, 0, if IS_F32 { 20 } else { 60 }, *kind == CostKind::Mse),
+                };
                 let t = gen_vals(seed ^ 5, n, if *kind == CostKind::Mse { VKind::Signed } else { VKind::Pos });
                 let want = ref_cost(*kind, &T::from_f64(dims, &o), &T::from_f64(dims, &t)).map_err(|e| ("internal".to_string(), format!("{:?}", e)))?;
                 let f = make_cost(*kind);
@@ -114,7 +127,9 @@ impl Case15 {
                     cmp_t(layer_name(s), &cur, &cur_ref, exact).map_err(|(k, d)| (k, format!("layer {} {:?} (stack {:?}, input dims {:?}): {}", i, s, specs, xd, d)))?;
                 }
                 // the model: forward = composition in order; backward returns sum(cost)
-                let positive_out = cur_ref.vals.iter().all(|v| v.v > 1e-3);
+                // cross-entropy needs positive outputs; they may be tiny (confidently wrong predictions): the outputs of
+                // sigmoid / softmax layers are relatively accurate down to the subnormal range
+                let positive_out = cur_ref.vals.iter().all(|v| v.v > if IS_F32 { 1e-30 } else { 1e-290 });
                 let cost_kind = if *cost == CostKind::CrossEntropy && !positive_out { CostKind::Mse } else { *cost };
                 let cf = make_cost(cost_kind);
                 let gd = GradientDescent::new(0.0);
@@ -181,8 +196,8 @@ impl CaseKind for Case15 {
     fn run(&self) -> Outcome {
         let mut k = KeyHasher::new("c15");
         let classes = match self {
-            Case15::Cost { kind, dims, .. } => {
-                k.s(&format!("{:?}", kind)).us(dims);
+            Case15::Cost { kind, dims, wide, .. } => {
+                k.s(&format!("{:?}", kind)).us(dims).u(*wide as u64);
                 vec![format!("cost:{:?}", kind), format!("cost-rank:{}", dims.len())]
             }
             Case15::Stack { specs, batch, rows, cols, cost, int_data, .. } => {
@@ -218,7 +233,10 @@ pub fn run(ctx: &Ctx) -> i32 {
     let shapes = crate::opcase::all_shapes(4, 3);
     let ns = shapes.len() as u64;
     st.merge(ctx.run_indexed("costs-all-small-shapes", ns * 2, Some("mse and cross-entropy closures on all output/target shapes of rank 1..4, sizes 1..3"), |i| {
-        Some(Case15::Cost { kind: if i % 2 == 0 { CostKind::Mse } else { CostKind::CrossEntropy }, dims: shapes[(i / 2) as usize].clone(), seed: i })
+        Some(Case15::Cost { kind: if i % 2 == 0 { CostKind::Mse } else { CostKind::CrossEntropy }, dims: shapes[(i / 2) as usize].clone(), seed: i, wide: 0 })
+    }));
+    st.merge(ctx.run_indexed("costs-on-outputs-of-any-magnitude", ns * 2 * 3, None, |i| {
+        Some(Case15::Cost { kind: if i % 2 == 0 { CostKind::Mse } else { CostKind::CrossEntropy }, dims: shapes[((i / 2) % ns) as usize].clone(), seed: i ^ ctx.seed.wrapping_mul(0x9E3779B1), wide: 1 + (i / 2 / ns) as u8 })
     }));
     // single dense layers: all sizes 1..4 x activations x input forms
     let acts = [Act::None, Act::Relu, Act::Sigmoid, Act::Softmax];
@@ -240,16 +258,18 @@ pub fn run(ctx: &Ctx) -> i32 {
     // large logits: softmax / sigmoid layers whose pre-activations are far from zero and differ in sign across the batch
     let scales: Vec<f64> = if crate::exec::IS_F32 { vec![2.0, 4.0, 6.0] } else { vec![15.0, 25.0, 40.0, 60.0, 90.0] };
     let nsc = scales.len() as u64;
-    st.merge(ctx.run_indexed("large-logits", nsc * 3 * 3 * 2 * 3, None, |i| {
+    st.merge(ctx.run_indexed("large-logits", nsc * 3 * 3 * 2 * 3 * 2, None, |i| {
+        let ce = (i / (nsc * 3 * 3 * 2 * 3)) == 1;
+        let i = i % (nsc * 3 * 3 * 2 * 3);
         let pscale = scales[(i % nsc) as usize];
         let input = 1 + ((i / nsc) % 3) as usize;
         let output = 2 + ((i / nsc / 3) % 3) as usize;
         let act = if (i / nsc / 9) % 2 == 0 { Act::Softmax } else { Act::Sigmoid };
         let batch = 2 + ((i / nsc / 18) % 3) as usize;
-        Some(Case15::Stack { specs: vec![LayerSpec::Dense { input, output, act }], batch, rows: 1, cols: 1, pseed: i + 11, xseed: i + 12, int_data: true, cost: CostKind::Mse, pscale })
+        Some(Case15::Stack { specs: vec![LayerSpec::Dense { input, output, act }], batch, rows: 1, cols: 1, pseed: i + 11, xseed: i + 12, int_data: true, cost: if ce { CostKind::CrossEntropy } else { CostKind::Mse }, pscale })
     }));
     let strat2 = move || (prop::collection::vec(1..=6usize, 1..=4), any::<bool>(), any::<u64>()).boxed();
-    st.merge(ctx.run_prop("random-costs", total / 4, strat2, |(dims, ce, seed)| Some(Case15::Cost { kind: if *ce { CostKind::CrossEntropy } else { CostKind::Mse }, dims: dims.clone(), seed: *seed })));
+    st.merge(ctx.run_prop("random-costs", total / 4, strat2, |(dims, ce, seed)| Some(Case15::Cost { kind: if *ce { CostKind::CrossEntropy } else { CostKind::Mse }, dims: dims.clone(), seed: *seed, wide: (*seed % 4) as u8 })));
     finish(
         ctx,
         st,
